@@ -31,6 +31,7 @@ template <class GC> static void run_smr_program(const Program& P, int nslots, bo
   auto retire_obj = [&](Obj* o) { if (!o) return; xev("retire", id_of(o)); xev("pass"); if (func_retire) GC::template retire<Obj>(o, disposer_fn); else GC::template retire<ObjDisposer>(o); };
   auto thread_body = [&](const std::vector<Op>& ops, bool is_worker) {
     ThreadState<GC> ts(nslots);
+    if (!ops.empty() && ops[0].name == "noattach") ts.attached = false;
     bool manual = false; for (auto& o : ops) if (o.name == "galloc") manual = true;   // galloc:n / gfree: the program allocates and frees the guards itself
     if (nslots > 8 && !manual) for (int k = 0; k < nslots; ++k) ts.g[k] = new typename GC::Guard;   // "many guards" variants: guard k really is the k-th guard of the thread (extension blocks for DHP)
     for (auto& o : ops) {
@@ -63,7 +64,7 @@ template <class GC> static void run_smr_program(const Program& P, int nslots, bo
   };
   thread_body(P.init, false);
   std::vector<std::thread> th; vs::roi(true);
-  for (size_t i = 0; i < P.threads.size(); ++i) th.emplace_back([&, i] { t_id = (int)i + 1; attach(); thread_body(P.threads[i], true); });
+  for (size_t i = 0; i < P.threads.size(); ++i) th.emplace_back([&, i] { t_id = (int)i + 1; bool na = !P.threads[i].empty() && P.threads[i][0].name == "noattach"; if (!na) attach(); thread_body(P.threads[i], true); });   // "noattach": the thread starts without an SMR record
   for (auto& t : th) t.join();
   vs::roi(false);
   thread_body(P.fini, false);
